@@ -204,3 +204,164 @@ def group_is_digits(pattern, key):
                 else:
                     return False
     return found
+
+
+# ---- whitespace sensitivity --------------------------------------------------------------
+WS_FAMILY = (32, 9, 10, 13, 0xA0)   # space, tab, newline, carriage return, no-break space
+
+
+def _class_matches(cls_items, cp):
+    """does the character class (items of an IN node) match code point cp? (categories: space/word/digit only)"""
+    from re._constants import (CATEGORY_NOT_DIGIT, CATEGORY_NOT_SPACE, CATEGORY_NOT_WORD, CATEGORY_SPACE, CATEGORY_WORD)
+    items = list(cls_items)
+    neg = any(op == NEGATE for op, _ in items)
+    hit = False
+    ch = chr(cp)
+    for op, av in items:
+        if op == NEGATE:
+            continue
+        if op == LITERAL and av == cp:
+            hit = True
+        elif op == RANGE and av[0] <= cp <= av[1]:
+            hit = True
+        elif op == CATEGORY:
+            if av == CATEGORY_SPACE and ch.isspace():
+                hit = True
+            elif av == CATEGORY_NOT_SPACE and not ch.isspace():
+                hit = True
+            elif av == CATEGORY_DIGIT and ch.isdecimal():
+                hit = True
+            elif av == CATEGORY_NOT_DIGIT and not ch.isdecimal():
+                hit = True
+            elif av == CATEGORY_WORD and (ch.isalnum() or ch == "_"):
+                hit = True
+            elif av == CATEGORY_NOT_WORD and not (ch.isalnum() or ch == "_"):
+                hit = True
+    return hit != neg
+
+
+def _walk_skipping_ws_runs(tree):
+    """walk(), but an unbounded repeat of the pure whitespace class (\\s+, \\s*) is not descended into: it treats every
+    run of whitespace alike, whatever its members and length"""
+    from re._constants import CATEGORY_SPACE, MAXREPEAT
+    for op, av in tree:
+        if op in (MAX_REPEAT, MIN_REPEAT) and av[1] == MAXREPEAT:
+            sub = list(av[2])
+            if len(sub) == 1 and sub[0][0] == IN and list(sub[0][1]) == [(CATEGORY, CATEGORY_SPACE)]:
+                continue
+        yield op, av
+        if op in (MAX_REPEAT, MIN_REPEAT):
+            yield from _walk_skipping_ws_runs(av[2])
+        elif op == SUBPATTERN:
+            yield from _walk_skipping_ws_runs(av[3])
+        elif op in (ASSERT, ASSERT_NOT):
+            yield from _walk_skipping_ws_runs(av[1])
+        elif op == BRANCH:
+            for alt in av[1]:
+                yield from _walk_skipping_ws_runs(alt)
+
+
+def whitespace_constructs(pattern, flags_text=""):
+    """constructs of the pattern whose outcome depends on which whitespace characters the subject contains or on how
+    many: anything that can match a member of WS_FAMILY, '.', and the anchors ^ $ \\A \\Z.  Top-level alternatives that are
+    nothing but whitespace literals are returned separately, as the characters they match (they map whitespace to the
+    replacement).
+    -> (sensitive: [text], pure_ws_branches: [text])"""
+    from re._constants import ANY, AT_BOUNDARY, AT_NON_BOUNDARY
+    p = parse(pattern)
+    top = list(p)
+    branches = [top]
+    if len(top) == 1 and top[0][0] == BRANCH:
+        branches = [list(b) for b in top[0][1][1]]
+    elif top and all(op == IN for op, _ in top) and len(top) == 1:
+        # a|b|c of single characters is folded by the parser into one class
+        cls = list(top[0][1])
+        if all(op == LITERAL and av in WS_FAMILY for op, av in cls):
+            return [], ["".join(chr(av) for _, av in cls)]
+    sens, pure = [], []
+    for br in branches:
+        if br and all(op == LITERAL and av in WS_FAMILY for op, av in br):
+            pure.append("".join(chr(av) for _, av in br))
+            continue
+        if len(br) == 1 and br[0][0] == IN and all(op == LITERAL and av in WS_FAMILY for op, av in br[0][1]):
+            pure.append("".join(chr(av) for _, av in br[0][1]))
+            continue
+        for op, av in _walk_skipping_ws_runs(br):
+            if op == LITERAL and av in WS_FAMILY:
+                sens.append("literal %r" % chr(av))
+            elif op == NOT_LITERAL:
+                sens.append("[^%s] matches whitespace" % chr(av))
+            elif op == IN:
+                m = [cp for cp in WS_FAMILY if _class_matches(av, cp)]
+                if m:
+                    sens.append("class matching %s" % ",".join(repr(chr(c)) for c in m))
+            elif op == ANY:
+                sens.append("'.' (matches a space but not a newline)")
+            elif op == AT and av not in (AT_BOUNDARY, AT_NON_BOUNDARY):
+                sens.append("anchor %s" % str(av).lower())
+    return sens, pure
+
+
+def is_ws_collapse(pattern, repl):
+    """sub(pattern, repl) replaces every maximal whitespace run by one space: \\s+ -> ' '"""
+    from re._constants import CATEGORY_SPACE, MAXREPEAT
+    t = list(parse(pattern))
+    if repl != " " or len(t) != 1 or t[0][0] not in (MAX_REPEAT,):
+        return False
+    lo, hi, sub = t[0][1]
+    sub = list(sub)
+    return lo == 1 and hi == MAXREPEAT and len(sub) == 1 and sub[0][0] == IN and list(sub[0][1]) == [(CATEGORY, CATEGORY_SPACE)]
+
+
+def trim_sides(pattern, repl):
+    """which ends sub(pattern, repl) trims on a string whose whitespace is already collapsed, independently of the other end:
+    '^\\s*(\\S.*?)\\s*$' -> \\1 gives {'L','R'}; with \\s+ on both ends the pattern only fires when BOTH ends carry whitespace
+    -> set() (neither end is trimmed on its own); '^\\s+' -> '' gives {'L'}; '\\s+$' -> '' gives {'R'}"""
+    from re._constants import AT_BEGINNING, AT_END, CATEGORY_SPACE, MAXREPEAT
+
+    def ws_rep(node):
+        op, av = node
+        if op != MAX_REPEAT:
+            return None
+        lo, hi, sub = av
+        sub = list(sub)
+        if hi == MAXREPEAT and len(sub) == 1 and sub[0][0] == IN and list(sub[0][1]) == [(CATEGORY, CATEGORY_SPACE)]:
+            return lo
+        return None
+    t = list(parse(pattern))
+    if not t:
+        return None
+    if repl == "" and len(t) == 2:
+        if t[0] == (AT, AT_BEGINNING) and ws_rep(t[1]) is not None:
+            return {"L"}
+        if t[1] == (AT, AT_END) and ws_rep(t[0]) is not None:
+            return {"R"}
+        return None
+    if repl in ("\\1", "\\g<1>") and len(t) == 5 and t[0] == (AT, AT_BEGINNING) and t[4] == (AT, AT_END) and t[2][0] == SUBPATTERN:
+        a, b = ws_rep(t[1]), ws_rep(t[3])
+        if a is None or b is None:
+            return None
+        if a == 0 and b == 0:
+            return {"L", "R"}
+        if a == 0:
+            return set() if b else {"L", "R"}
+        return set()      # fires only when the left end has whitespace (and, if b>=1, the right end too)
+    return None
+
+
+def trailing_colon_trim(pattern, repl):
+    """sub removes a run of colons at the end of the string: '(\\S.*?):*$' -> \\1, ':+$' -> ''"""
+    from re._constants import AT_END, MAXREPEAT
+    t = list(parse(pattern))
+    if len(t) < 2 or t[-1] != (AT, AT_END):
+        return False
+    op, av = t[-2]
+    if op != MAX_REPEAT:
+        return False
+    lo, hi, sub = av
+    sub = list(sub)
+    if not (hi == MAXREPEAT and len(sub) == 1 and sub[0] == (LITERAL, 58)):
+        return False
+    if len(t) == 2:
+        return repl == ""
+    return repl in ("\\1", "\\g<1>") and len(t) == 3 and t[0][0] == SUBPATTERN
